@@ -262,7 +262,8 @@ pub fn gen_fix_program(rng: &mut Rng) -> (String, String) {
   }
   if rng.chance(1, 10) {
     // a line directive above the first statement suppresses one finding; the fix of another one must leave it there
-    let head = ["", "// header\n", "#!/usr/bin/env deno\n", "/* licence */\n\n"][rng.below(4)];
+    // (also several directives stacked on consecutive lines above it)
+    let head = ["", "// header\n", "#!/usr/bin/env deno\n", "/* licence */\n\n", "// deno-lint-ignore no-explicit-any\n", "// deno-lint-ignore no-var\n// deno-lint-ignore eqeqeq\n", "// header\n// deno-lint-ignore no-empty\n"][rng.below(7)];
     return match rng.below(3) {
       0 => ("no-node-globals".into(), format!("{}// deno-lint-ignore no-node-globals\nconst a = Buffer;\nconst b = setImmediate;\n", head)),
       1 => ("no-process-global".into(), format!("{}// deno-lint-ignore no-process-global\nconst a = process.env;\nprocess.exit(1);\n", head)),
@@ -425,6 +426,9 @@ pub fn run(args: &Args) {
       (s.rule.clone(), s.src.clone())
     } else if want("C13") && !props.is_empty() && case_no % 2 == 1 {
       gen_fix_program(&mut crng)
+    } else if want("C02") && !props.is_empty() && case_no % 4 == 1 {
+      // fixes are part of the result that must not vary between calls
+      gen_fix_program(&mut crng)
     } else if case_no % 11 == 5 {
       // the oddities, in turn
       out.count("kind=oddity");
@@ -561,6 +565,15 @@ pub fn run(args: &Args) {
           out.found("C01", &format!("panic:{}", r), &src, json!({"rule": rule, "src": src, "ext": e, "panic": m, "panicking_rule": r}));
         }
       }
+      // …and with byte-order marks in front (one, two, three)
+      if case_no % 4 == 0 {
+        for k in 1..=3 {
+          let s2 = format!("{}{}", "\u{feff}".repeat(k), src);
+          if let Full::Panic(m) = lint_full(&all, &s2, ext, &Cfg::default()) {
+            out.found("C01", "panic:bom", &s2, json!({"rule": rule, "src": s2, "ext": ext, "panic": m, "boms": k}));
+          }
+        }
+      }
       let t0 = std::time::Instant::now();
       let _ = lint_full(&all, &src, ext, &Cfg::default());
       let dt = t0.elapsed().as_millis() as usize;
@@ -583,6 +596,27 @@ pub fn run(args: &Args) {
       let text = ps.text().to_string();
       let starts: BTreeSet<usize> = toks.iter().map(|t| t.0).chain(comments.iter().map(|c| c.0)).collect();
       let ends: BTreeSet<usize> = toks.iter().map(|t| t.1).chain(comments.iter().map(|c| c.1)).collect();
+      // the specifier of every diagnostic is the one the file was linted under, whatever it looks like: remote, with a
+      // query, with a fragment, without an extension
+      if case_no % 3 == 0 {
+        let odd = ["https://esm.sh/x/t.EXT?dev&target=deno", "file:///dir/t.EXT#L10", "https://example.com/a/b/t.EXT?v=1#frag", "file:///t.EXT?", "data:application/typescript;base64,AAAA", "file:///C:/dir%20with%20space/t.EXT"][crng.below(6)].replace("EXT", ext);
+        if let Ok(spec2) = deno_ast::ModuleSpecifier::parse(&odd) {
+          let r = std::panic::catch_unwind(std::panic::AssertUnwindSafe(|| {
+            all.lint_file(LintFileOptions { specifier: spec2.clone(), source_code: src.clone(), media_type: MediaType::from_specifier(&spec_for(ext)), config: LintConfig { default_jsx_factory: None, default_jsx_fragment_factory: None }, external_linter: None })
+          }));
+          match r {
+            Ok(Ok((ps2, lds2))) => {
+              out.count("specifier=unusual");
+              if ps2.specifier() != &spec2 || lds2.iter().any(|d| d.specifier != spec2) {
+                let wrong: Vec<String> = lds2.iter().filter(|d| d.specifier != spec2).map(|d| format!("{} {}", d.details.code, d.specifier)).take(3).collect();
+                out.found("C03", "wrong-specifier", &src, json!({"meta": meta, "linted_as": odd, "diagnostics_say": wrong, "parsed_source_says": ps2.specifier().as_str()}));
+              }
+            }
+            Ok(Err(_)) => {}
+            Err(e) => out.found("C01", "panic:unusual-specifier", &src, json!({"meta": meta, "specifier": odd, "panic": panic_msg(e)})),
+          }
+        }
+      }
       for (i, (d, ld)) in ds.iter().zip(lds.iter()).enumerate() {
         if ld.specifier.as_str() != spec_for(ext).as_str() {
           out.found("C03", "wrong-specifier", &src, json!({"meta": meta, "diag": d.json()}));
@@ -787,16 +821,18 @@ pub fn run(args: &Args) {
           Outcome::ParseErr(_) => out.count("c09-prefix-parse-err"),
         }
       }
-      // BOM: no translation at all
-      let s2 = format!("\u{feff}{}", src);
-      match lint(&all, &s2, ext) {
-        Outcome::Ok(d2) => {
-          if d2 != ds {
-            out.found("C09", "bom-changes-result", &src, json!({"meta": meta}));
+      // BOM (one, or absurdly two): no translation at all
+      for bom in ["\u{feff}", "\u{feff}\u{feff}"] {
+        let s2 = format!("{}{}", bom, src);
+        match lint(&all, &s2, ext) {
+          Outcome::Ok(d2) => {
+            if d2 != ds {
+              out.found("C09", "bom-changes-result", &src, json!({"meta": meta, "boms": bom.chars().count()}));
+            }
           }
+          Outcome::Panic(m) => out.found("C01", "panic:bom", &s2, json!({"rule": rule, "src": s2, "ext": ext, "panic": m})),
+          _ => {}
         }
-        Outcome::Panic(m) => out.found("C01", "panic:bom", &s2, json!({"rule": rule, "src": s2, "ext": ext, "panic": m})),
-        _ => {}
       }
       // LF -> CRLF outside string/template/regex/JSX-text tokens
       if !src.contains('\r') {
